@@ -178,6 +178,9 @@ func tokenize(src string) ([]token, error) {
 		case c == '>':
 			toks = append(toks, token{">", true})
 			i++
+		case c == '|' && (i+1 >= len(src) || src[i+1] != '|'):
+			toks = append(toks, token{"|", true})
+			i++
 		case c == '|' || c == '<' || c == '&' || c == '$' || c == '`' || c == '(' || c == ')':
 			return nil, fmt.Errorf("unsupported shell syntax %q in %q", string(c), src)
 		default:
@@ -230,7 +233,7 @@ func (sh *Shell) Exec(script string) ([]byte, error) {
 		// collect one simple command
 		var words []string
 		redir, redirTo := "", ""
-		for i < len(toks) && !(toks[i].op && (toks[i].s == "&&" || toks[i].s == ";")) {
+		for i < len(toks) && !(toks[i].op && (toks[i].s == "&&" || toks[i].s == ";" || toks[i].s == "|")) {
 			if toks[i].op {
 				if i+1 >= len(toks) || toks[i+1].op {
 					s.HarnessFail("bad redirection in: " + script)
@@ -249,9 +252,15 @@ func (sh *Shell) Exec(script string) ([]byte, error) {
 			}
 		}
 		if i < len(toks) {
-			if toks[i].s == "&&" {
+			switch toks[i].s {
+			case "&&":
 				skip = status != 0
-			} else {
+			case "|":
+				// pipeline: every stage runs, the status is that of the last
+				// stage (bash without pipefail). Only stages that neither read
+				// stdin nor matter for stdout are used by the workloads.
+				r.out = nil
+			default:
 				skip = false
 			}
 			i++
